@@ -182,14 +182,10 @@ pub fn check(c: &Case, obs: &mut Obs) -> Result<(), String> {
             *sizes.entry(n).or_insert(0) += 1;
         }
     }
+    let mut keys = std::collections::BTreeSet::new();
     for f in d.distfiles.iter().chain(d.patchfiles.iter()) {
-        let comps: Vec<&[u8]> = f.name.split(|b| *b == b'/').collect();
-        if f.name.is_empty()
-            || !m::unambiguous(&f.name)
-            // ("." is fine as the first of several components: Path keeps a leading "./")
-            || comps.iter().enumerate().any(|(i, c)| c.is_empty() || (*c == b"." && (i > 0 || comps.len() == 1)) || *c == b"..")
-            || sizes.get(&f.name).copied().unwrap_or(0) > 1
-        {
+        // (two spellings of one path, such as a/b and a//b, are one entry to the library)
+        if !m::name_in_domain(&f.name) || !keys.insert(m::path_key(&f.name)) || sizes.get(&f.name).copied().unwrap_or(0) > 1 {
             obs.excluded = true;
             return Ok(());
         }
